@@ -208,4 +208,15 @@ theorem short_recording_counterexample :
   · simp [applyAll, applyWrite, writeCell, Write.rows, refFile, batchOf, firstlastValid, firstlast, firstlastAux, validOf]
   · simp [worker, startBatch, chunkSize, maxS, loop, lastOf, mkWrite, Write.rows]
 
+/-- Preparation of the output files: whatever the destination held before (`before` — an earlier, possibly LONGER, output when
+the run does not append), every worker seeks from the END of what the preparation leaves: each offset equals the size of
+its file.  With `final_file` (nothing beyond `offset + (ns + ns2add)·rb` is written, everything below `offset` is kept) the
+finished file therefore has exactly `size kept + (ns + ns2add)·rb` bytes: no stale tail survives a non-append run, and an
+append run starts right after the earlier one. -/
+theorem prepare_offsets_at_end (append : Bool) (before : Sizes) :
+    let p := prepare append before
+    p.offset = p.sizes.out ∧ p.rmsOff = p.sizes.rms ∧ p.timeOff = p.sizes.time ∧
+    (append = false → p.sizes = ⟨0, 0, 0⟩) ∧ (append = true → p.sizes = before) := by
+  cases append <;> simp [prepare]
+
 end IblVerif.C06
